@@ -181,6 +181,31 @@ func main() {
 		px := func(e uint32) orb.MultiPoint {
 			return orb.MultiPoint{{0, 0}, {float64(e) / 2, float64(e)/2 + 1}, {float64(e) - 1, 3}, {-7, float64(e) + 7}, {1, float64(e) - 2}}
 		}
+		// every kind with repeated consecutive vertices: the projection maps vertex for vertex, it does not merge
+		shapes := func(e uint32) []orb.Geometry {
+			h := float64(e) / 2
+			return []orb.Geometry{
+				orb.LineString{{10, 10}, {10, 10}, {h, 30}, {h, 30}, {h, 30}},
+				orb.MultiLineString{{{1, 1}, {1, 1}}, {{2, 2}, {3, 3}, {3, 3}}},
+				orb.Polygon{{{0, 0}, {h, 0}, {h, 0}, {h, h}, {0, 0}, {0, 0}}},
+				orb.Collection{orb.Ring{{5, 5}, {5, 5}, {6, 5}, {6, 6}, {5, 5}}, orb.Point{7, 7}, orb.Bound{Min: orb.Point{1, 2}, Max: orb.Point{1, 2}}},
+			}
+		}
+		{
+			e := exts[c.Choose(len(exts))]
+			l := &mvt.Layer{Name: "shapes", Version: 2, Extent: e}
+			for _, g := range shapes(e) {
+				l.Features = append(l.Features, geojson.NewFeature(orb.Clone(g)))
+			}
+			l.ProjectToWGS84(tile)
+			l.ProjectToTile(tile)
+			for i, g := range shapes(e) {
+				if refgeom.Struct(l.Features[i].Geometry) != refgeom.Struct(g) {
+					c.Failf("vertex-for-vertex", "tile %v extent %d: %T %v comes back as %v after ProjectToWGS84 / ProjectToTile", tile, e, g, g, l.Features[i].Geometry)
+					return
+				}
+			}
+		}
 		var ls, single mvt.Layers
 		var seq []uint32
 		for i := 0; i < n; i++ {
